@@ -330,7 +330,7 @@ def showOut : Out → String
   | .points l => "ok " ++ showList showPoint l
   | .rows l => "ok " ++ showList (showList showVal) l
   | .strs l => "ok " ++ showList hex l
-  | .tagVals l => "ok " ++ showList (fun kv => hex kv.1 ++ ":" ++ showList showOptStr kv.2) l
+  | .tagVals l => "ok " ++ showList (fun kv => hex kv.1 ++ ":" ++ showList showOptStr kv.2) (sortPairs l)
   | .nums l => "ok " ++ showList showOptNum l
   | .times l => "ok " ++ showList toString l
   | .err e => "err " ++ showErr e
